@@ -81,6 +81,11 @@ func main() {
 			name = os.Args[2]
 		}
 		os.Exit(selfcheck(name))
+	case "auxrace":
+		if len(os.Args) < 3 {
+			usage()
+		}
+		os.Exit(auxRace(os.Args[2]))
 	case "rewrite":
 		if len(os.Args) < 4 {
 			usage()
